@@ -26,11 +26,33 @@ import (
 	"verif/overlaygen"
 )
 
-const (
+const goBin = "go1.26.8"
+
+// repoDir is the tree under test: /repo, unless VERIF_REPO names a snapshot of it
+// (background sweeps started with `vp run --with-repo`, so that experiments on /repo do
+// not disturb them; registered checks always use /repo). verifDir is where this driver's
+// sources are (the snapshot worktree for background runs).
+var (
 	repoDir  = "/repo"
 	verifDir = "/verif"
-	goBin    = "go1.26.8"
+	modFlag  []string
 )
+
+func init() {
+	if wd, err := os.Getwd(); err == nil {
+		if _, err := os.Stat(filepath.Join(wd, "cmd", "verif", "main.go")); err == nil {
+			verifDir = wd
+		}
+	}
+	if r := os.Getenv("VERIF_REPO"); r != "" && r != "/repo" {
+		repoDir = r
+		alt := filepath.Join(verifDir, "work", "alt.go.mod")
+		if _, err := os.Stat(alt); err != nil {
+			infra("VERIF_REPO is set but %s is missing (the entry script writes it)", alt)
+		}
+		modFlag = []string{"-modfile=" + alt}
+	}
+}
 
 type propCfg struct {
 	ID          string
@@ -176,7 +198,8 @@ func buildLib(cfg *propCfg, tier string, scratch string) *build {
 		infra("corpus: %v", err)
 	}
 	bin := filepath.Join(scratch, "lib.test")
-	args := []string{"test", "-c", "-tags", "verif", "-overlay", ovPath, "-vet=off", "-o", bin}
+	args := append([]string{"test", "-c"}, modFlag...)
+	args = append(args, "-tags", "verif", "-overlay", ovPath, "-vet=off", "-o", bin)
 	if cfg.Race {
 		args = append(args, "-race")
 	}
